@@ -1,6 +1,7 @@
 package main
 
 import (
+	"sort"
 	"go/ast"
 	"go/token"
 	"go/types"
@@ -10,7 +11,7 @@ import (
 func init() {
 	register(PropInfo{
 		ID: "C10",
-		Explanation: "Decides only structural necessary conditions of C10 (DESIGN.md section 4, C10): (R1) wiring: execute.New runs recover() when recovery is enabled, recover() hands every plan that came out of the recovery machine to runPlan, runPlan enters the plan machine at Recovery exactly when the stored status is Running, and the recovery machine is start→fetchPlans→filterPlans→agedOut→done with errors surfaced; (R2) Recovery dispatches every plan status after fixPlan (terminal ⇒ End, NotStarted ⇒ Start, Running ⇒ PlanBypassChecks); (R3) the resumed machine inherits the engine's structure: from Recovery every path to termination passes End, an entered scope passes its deferred checks, continuous-check goroutines are joined, fixBlock joins what it launches, and the C09 guards hold. Convergence, absence of hangs and equality of outcomes over all crash points are not decided.",
+		Explanation: "Decides only structural necessary conditions of C10 (DESIGN.md section 4, C10): (R1) wiring: execute.New runs recover() when recovery is enabled, recover() hands every plan that came out of the recovery machine to runPlan, runPlan enters the plan machine at Recovery exactly when the stored status is Running, and the recovery machine is start→fetchPlans→filterPlans→agedOut→done with errors surfaced; (R2) Recovery dispatches every plan status after fixPlan (terminal ⇒ End, NotStarted ⇒ Start, Running ⇒ PlanBypassChecks); (R3) the resumed machine inherits the engine's structure: from Recovery every path to termination passes End, an entered scope passes its deferred checks, continuous-check goroutines are joined, fixBlock joins what it launches, and the C09 guards hold. (R4) deferred checks of an entered scope still run when the scope's failure was already durable at the crash: Recovery must not send a Failed plan to End without its deferred checks, and no block state before BlockDeferredChecks may store a terminal block status. Convergence, absence of hangs and equality of outcomes over all crash points are not decided.",
 		NotDecided:  []string{"convergence over all crash points × schedules", "absence of hangs as liveness", "equality of the recovered and the uninterrupted outcome"},
 		Assumptions: []string{"statemachine.Run semantics", "the vault returns what was durably written (C13)"},
 		Rules:       rulesC10,
@@ -76,6 +77,10 @@ func rulesC10(r *Run) {
 	ruleSkipRecoveredChecks(r, "R3")
 	ruleRecoveryNoEarlyWrite(r, "R3")
 	r.Expect("R3", 29)
+
+	r.Kind("R4", "K1+K3")
+	ruleRecoveryDeferred(r, "R4", m)
+	r.Expect("R4", 6)
 }
 
 // ruleNewRecovers: New calls recover() iff the recovery flag is set.
@@ -1519,5 +1524,108 @@ func rulePositiveArgs(r *Run, rule string) {
 	}
 	if n == 0 {
 		r.Unresolved(rule, "time.NewTicker call")
+	}
+}
+
+// ruleRecoveryDeferred (C10-R4): deferred checks of a scope that was entered still run
+// when the scope's failure was already durable at the crash.
+// (a) Recovery sends a plan that fixPlan found Failed/Stopped straight to End; unless the path
+//     established that the plan's DeferredChecks completed, they never run (and a deferred
+//     check action caught Running stays Running).
+// (b) a block state that comes before BlockDeferredChecks and writes the block with a
+//     terminal status opens the same window for the block's DeferredChecks, because
+//     fixBlock leaves non-Running blocks untouched.
+func ruleRecoveryDeferred(r *Run, rule string, m *Machine) {
+	fn := r.fnByKey(rule, smKey("Recovery"))
+	if fn != nil {
+		fl, paths, ok := r.flowPaths(rule, fn)
+		if ok {
+			bad := ""
+			n := 0
+			for i := range paths {
+				p := &paths[i]
+				if p.Exit != ExitReturn || nextOf(fl, p) != "End" {
+					continue
+				}
+				st := ""
+				deferredDone := false
+				for _, e := range p.Ev {
+					if e.Kind == EvBranch && e.Taken {
+						if v, ok := statusTest(fl.Info, e, "workflow.Plan"); ok {
+							st = v
+						}
+						if e.Cond != nil && strings.Contains(ExprStr(e.Cond), "DeferredChecks") {
+							deferredDone = true
+						}
+					}
+				}
+				if st == "workflow.Failed" || st == "workflow.Stopped" {
+					n++
+					if !deferredDone && bad == "" {
+						bad = "a recovered plan that fixPlan finds " + strings.TrimPrefix(st, "workflow.") + " is sent straight to End: its DeferredChecks (and those of its failed block) never run after the crash although the plan was entered, and a deferred-check action that was in flight stays Running"
+					}
+				}
+			}
+			if n > 0 {
+				r.Check(rule, "Recovery:failed-plan-goes-to-End-without-deferred-checks", fn.Decl.Pos(), bad == "", "%s", orOK(bad, "deferred checks established complete before End"))
+			} else {
+				r.Unresolved(rule, "Recovery path to End for a Failed plan")
+			}
+		}
+	}
+	// (b)
+	before := map[string]bool{}
+	for st := range m.States {
+		if st == "BlockDeferredChecks" || st == "BlockEnd" || st == "ExecuteBlock" {
+			continue // ExecuteBlock: the block has not been entered yet (a cancelled entrance delay goes to the plan's deferred checks)
+		}
+		if m.reach(st, map[string]bool{"ExecuteBlock": true, "End": true, "PlanDeferredChecks": true})["BlockDeferredChecks"] {
+			before[st] = true
+		}
+	}
+	var names []string
+	for st := range before {
+		names = append(names, st)
+	}
+	sort.Strings(names)
+	for _, st := range names {
+		sf := m.States[st]
+		if sf == nil {
+			continue
+		}
+		fl, paths, ok := r.flowPaths(rule, sf)
+		if !ok {
+			continue
+		}
+		writes, terminal := false, ""
+		var pos token.Pos = sf.Decl.Pos()
+		for i := range paths {
+			p := &paths[i]
+			if p.Exit != ExitReturn {
+				continue
+			}
+			last := ""
+			si := -1
+			for j, e := range p.Ev {
+				if v, ok := StatusAssign(fl.Info, e, "workflow.Block"); ok && !e.Deferred && (v == "workflow.Failed" || v == "workflow.Completed" || v == "workflow.Stopped") {
+					last, si = v, j
+					pos = e.Pos
+				}
+			}
+			if si < 0 {
+				continue
+			}
+			for j := si + 1; j < len(p.Ev); j++ {
+				if name, ok := isUpdaterCall(p.Ev[j]); ok && name == "UpdateBlock" {
+					writes = true
+					terminal = last
+				}
+			}
+		}
+		if terminal == "" {
+			r.Pass(rule, "early-terminal-write:"+st, sf.Decl.Pos(), "%s never writes the block with a terminal status", st)
+			continue
+		}
+		r.Check(rule, "early-terminal-write:"+st, pos, !writes, "%s stores the block as %s before the block's DeferredChecks have run: after a crash in that window fixBlock leaves the (no longer Running) block untouched and recovery ends the plan without ever running the block's deferred checks", st, strings.TrimPrefix(terminal, "workflow."))
 	}
 }
